@@ -24,7 +24,7 @@ def parse_harnesses(path):
     """`// @harness k=v ...` comment lines directly above a #[kani::proof] fn."""
     src = open(path).read()
     out = {}
-    for mm in re.finditer(r'// @harness ([^\n]*)\n((?:\s*(?://[^\n]*|#\[[^\n]*\])\n)*)\s*(?:pub )?fn (\w+)', src):
+    for mm in re.finditer(r'// @harness ([^\n]*)\n((?:\s*(?://[^\n]*|#\[[^\n]*\])\n)*)\s*(?:(?:pub )?fn |\w+!\()(\w+)', src):
         meta = {}
         for kv in re.finditer(r'(\w+)=("([^"]*)"|\S+)', mm.group(1)):
             meta[kv.group(1)] = kv.group(3) if kv.group(3) is not None else kv.group(2)
